@@ -155,9 +155,10 @@ pub(crate) fn parse_origin(s: &str) -> (Option<OriginCategory>, Origin) {
 }
 
 pub(crate) fn format_origin(category: &Option<OriginCategory>, origin: &Origin) -> String {
-    format!(
-        "{}{}",
-        category.map(|c| c.to_string() + ", ").unwrap_or_default(),
-        origin
-    )
+    match category {
+        // a bare category ("Origin: vendor") has no location: no dangling ", "
+        Some(c) if matches!(origin, Origin::Other(s) if s.is_empty()) => c.to_string(),
+        Some(c) => format!("{}, {}", c, origin),
+        None => origin.to_string(),
+    }
 }
